@@ -25,6 +25,9 @@ func init() { register("C12", runC12) }
 
 const c12Now = int64(1700000000)
 
+// c12Future is a timestamp later than any reader's time.Now() (2100-01-01).
+const c12Future = int64(4102444800)
+
 func c12Stream(ident, zone string, k int) string {
 	rnd := rand.New(rand.NewSource(shardUtil.ShuffleShardSeed(ident, zone)))
 	o := make([]string, k)
@@ -196,6 +199,10 @@ func c12Shard(e *env, r *rng, big bool, tokenless bool) {
 	roP := pick(r, []int{0, 0, 1, 4})
 	d := ring.NewDesc()
 	near := func() int64 { return til + int64(r.intn(5)) - 2 }
+	// in some rings instances carry a ReadOnlyUpdatedTimestamp from a clock ahead of every reader (year
+	// 2100): the plain shard is computed with the real time.Now(), so this is the deterministic way to have
+	// a read-only switch "at or after the second in which the reader computes the shard"
+	skew := r.chance(1, 5)
 	stamp := func(i *ring.InstanceDesc) {
 		switch r.intn(8) {
 		case 0:
@@ -219,6 +226,9 @@ func c12Shard(e *env, r *rng, big bool, tokenless bool) {
 			if i.ReadOnly {
 				i.ReadOnlyUpdatedTimestamp = now - int64(r.intn(3))
 			}
+		}
+		if skew && r.chance(1, 2) {
+			i.ReadOnlyUpdatedTimestamp = c12Future
 		}
 	}
 	for k := 0; k < n; k++ {
